@@ -219,7 +219,12 @@ func (w *World) Exec(ctx sdk.Context, op Op) Result {
 			} else {
 				res.Amount = mustInt(op.Amt)
 			}
-			_, err := ms.Redelegate(c, types.NewMsgRedelegate(w.delAddr(op.D).String(), w.Vals[op.V].String(), w.Vals[op.V2].String(), sdk.NewCoin(op.Denom, res.Amount)))
+			src := w.Vals[op.V].String()
+			if op.Args["src_case"] == "upper" {
+				// bech32 is case-insensitive as long as the case is not mixed: the all-uppercase spelling names the same validator
+				src = strings.ToUpper(src)
+			}
+			_, err := ms.Redelegate(c, types.NewMsgRedelegate(w.delAddr(op.D).String(), src, w.Vals[op.V2].String(), sdk.NewCoin(op.Denom, res.Amount)))
 			return err
 		})
 	case KClaim:
